@@ -228,10 +228,12 @@ def o6(h, st):
 
 
 @contract("C06", "O6b.trotter_suzuki_higher_order_fractions", targets=[(AU, "recursive_trotter_suzuki_decomposition")], level="B",
-          structures=lambda tier: [{"k": k, "order": o} for k in (1, 2, 3) for o in (4, 6)],
+          structures=lambda tier: [{"k": k, "order": o} for k in (1, 2, 3) for o in (4, 6, 8)],
           native_samples=lambda st, rnd, tier: [{"t": rnd.uniform(-3, 3), **{f"c{j}": rnd.uniform(-2, 2) for j in range(st["k"])}} for _ in range(4)])
 def o6b(h, st):
-    """bounded: for orders 4 and 6 the time fractions of every word sum to c_w t (4p + (1-4p) == 1), palindromic sequence"""
+    """bounded: for orders 4, 6 and 8 the sequence is Suzuki's fractal formula S_2k(t) = S_2k-2(p_k t)^2 S_2k-2((1 - 4 p_k) t) S_2k-2(p_k t)^2 with
+    p_k = 1 / (4 - 4^(1/(2k-1))) at EVERY level of the recursion (spec function evaluated independently, word by word and time by time); the time fractions of every word
+    sum to c_w t and the word sequence is palindromic"""
     k = st["k"]
     t = h.real("t")
     cs = [h.real(f"c{j}") for j in range(k)]
@@ -241,6 +243,18 @@ def o6b(h, st):
         tot = sum(c for w, c in out if w == words[j])
         h.check_close(f"time fractions of word {j} sum to c*t", tot, cs[j] * t, tol=1e-9)
     h.check("palindromic word sequence", [w for w, _ in out] == [w for w, _ in out][::-1])
+    if not h.symbolic:
+        def suzuki(order, tt):
+            if order == 2:
+                half = [(w, c * tt / 2) for w, c in zip(words, cs)]
+                return half + half[::-1]
+            pk = 1.0 / (4.0 - 4.0 ** (1.0 / (order - 1)))
+            outer = suzuki(order - 2, pk * tt)
+            return outer + outer + suzuki(order - 2, (1.0 - 4.0 * pk) * tt) + outer + outer
+        ref = suzuki(st["order"], float(t))
+        same = len(ref) == len(out) and all(a[0] == b[0] and abs(float(a[1]) - float(b[1])) < 1e-10 for a, b in zip(out, ref))
+        h.check("sequence == Suzuki's fractal formula with the level's own p_k at every level", same,
+                detail=f"{len(out)} vs {len(ref)} entries; first difference {next(((i, a, b) for i, (a, b) in enumerate(zip(out, ref)) if a[0] != b[0] or abs(float(a[1]) - float(b[1])) >= 1e-10), None)}")
     h.done()
 
 
